@@ -579,6 +579,10 @@ func (c *seeCtx) loadAlloc(a *ssa.Alloc, path []int) *Expr {
 	stores := c.liveStores(storesToPlace(a, path), c.at)
 	var alts []*Expr
 	for _, ps := range stores {
+		if ps.st == nil {
+			alts = append(alts, &Expr{Op: OpZero, Typ: t, Name: "zero"})
+			continue
+		}
 		val := c.of(ps.st.Val)
 		// project remaining path
 		tt := elem
@@ -808,6 +812,9 @@ func (e *Expr) String() string {
 		if e.Name == "key" {
 			return "key(" + e.Args[0].String() + ")"
 		}
+		if len(e.Args) == 2 && e.Args[1] != nil {
+			return e.Args[0].String() + "[" + e.Args[1].String() + "]"
+		}
 		return e.Args[0].String() + "[*]"
 	case OpLen:
 		return "len(" + e.Args[0].String() + ")"
@@ -975,10 +982,42 @@ func (c *seeCtx) liveStores(stores []placeStore, at ssa.Instruction) []placeStor
 					best, bestPos = i, sp
 				}
 			}
+			// stores inside a loop that the path has been through (its header lies
+			// on the path after the chosen store and before the load) may have
+			// executed in earlier iterations: keep them as alternatives
+			var out []placeStore
 			if best >= 0 {
-				return []placeStore{stores[best]}
+				out = append(out, stores[best])
 			}
-			return nil // no store executed yet on this path: zero value
+			for i, s := range stores {
+				if i == best {
+					continue
+				}
+				if _, onPath := c.ps.pos(s.st); onPath {
+					if sp, _ := c.ps.pos(s.st); sp < lp {
+						continue // executed earlier on the path and overwritten, or is best
+					}
+				}
+				sb := s.st.Block()
+				for bi, hb := range c.ps.blocks {
+					hp := bi * 100000
+					if hp > bestPos && hp < lp && isLoopHeader(hb) && hb.Dominates(sb) && (sb == hb || Info(fn).Reaches(sb, hb)) {
+						out = append(out, s)
+						break
+					}
+				}
+			}
+			if len(out) == 1 && best >= 0 {
+				return out
+			}
+			if len(out) == 0 {
+				return nil // no store executed yet on this path: zero value
+			}
+			if best < 0 {
+				// zero value (no store before the loop) remains possible
+				out = append(out, placeStore{st: nil})
+			}
+			return out
 		}
 	}
 	if len(stores) < 2 {
